@@ -156,6 +156,19 @@ def val_setuparg(ctx: Ctx) -> RuleResult:
     # input ids come from the input nodes
     ids = [n for n in iter_own_nodes(f.node) if isinstance(n, ast.Assign) and "input" in (dotted(n.targets[0]) or "")]
     r.ob(len(ids) >= 1, {"input ids": norm_src(ids[0]) if ids else None})
+    # every construction of a DAG graph hands over ALL inputs of the DAG (defaulted ones included)
+    ip = f.node.args.args[1].arg
+    n_calls = 0
+    for f2, call in ctx.callers_of(f.qualname):
+        a = next((k.value for k in call.keywords if k.arg == ip), call.args[0] if call.args else None)
+        n_calls += 1
+        ok_in = a is not None and norm_src(a) == "self.input_uxns"
+        r.ob(ok_in, {"from_exec_nodes called from": f2.short, ip: norm_src(a) if a is not None else None})
+        if not ok_in:
+            r.violate(f"{f2.short}: the setup-argument check receives {norm_src(a) if a is not None else 'no inputs'}, not all inputs of the DAG",
+                      f2.loc(call), "an input that is left out (e.g. one that has a default value) may feed a setup node without being "
+                      "refused: the first call's value is frozen into the setup result", norm_src(call)[:120])
+    r.require(n_calls >= 2, "constructions of the DAG graph not found")
     return r
 
 
@@ -293,7 +306,7 @@ def val_conf(ctx: Ctx) -> RuleResult:
                       f"re-configuring {key} to 0 / False is silently ignored: the node (and, for priorities, all its ancestors) keeps "
                       f"stale scheduling attributes", s_)
         else:
-            gets = [c for c in ast.walk(v) if isinstance(c, ast.Call) and isinstance(c.func, ast.Attribute) and c.func.attr == "get"
+            gets = [c for c in ast.walk(v) if isinstance(c, ast.Call) and isinstance(c.func, ast.Attribute) and c.func.attr in ("get", "pop")
                     and dotted(c.func.value) == p and len(c.args) == 2]
             bad = [c for c in gets if norm_src(c.args[1]) != f"self.{key}"]
             if bad:
@@ -304,6 +317,21 @@ def val_conf(ctx: Ctx) -> RuleResult:
                 r.ob(True, {key: s_ + "  (wrapped)"})
             else:
                 raise Undecided(f"_conf_to_values: form of '{key}' not recognised: {s_}")
+    # reading the configuration must not consume it: one mapping is applied to every node an alias resolves to
+    for n in iter_own_nodes(f.node):
+        bad = None
+        if isinstance(n, ast.Call) and isinstance(n.func, ast.Attribute) and dotted(n.func.value) == p and \
+                n.func.attr in ("pop", "popitem", "clear", "update", "setdefault", "__delitem__", "__setitem__"):
+            bad = n
+        if isinstance(n, (ast.Assign, ast.Delete)):
+            tg = n.targets
+            if any(isinstance(t, ast.Subscript) and dotted(t.value) == p for t in tg):
+                bad = n
+        if bad is not None:
+            r.ob(False)
+            r.violate(f"ExecNode._conf_to_values: the configuration mapping is modified while it is read ({norm_src(bad)[:50]})", f.loc(bad),
+                      "the same mapping object is handed to every node an alias (a shared tag) resolves to, and may be applied again "
+                      "later: consuming its keys configures the first node only", norm_src(bad))
     for key in ("priority", "is_sequential"):
         r.ob(key in seen, {"configurable": key})
         if key not in seen:
